@@ -2,7 +2,7 @@
 contain the group."""
 import ast
 
-from sa.astutil import (facts_at, call_name, calls_in, dotted, norm, walk_no_nested, try_fold,
+from sa.astutil import (effective, facts_at, call_name, calls_in, dotted, norm, walk_no_nested, try_fold,
                         names_in, last_attr, guards_of, fact_texts, enclosing_loops,
                         format_fields, concat_str)
 from sa.loader import AnalysisError
@@ -145,15 +145,37 @@ def averaging_rules(ctx, rule):
            'would vanish from the report' % detail, mc, enum[0])
     # de-duplication before the clone with the same look-up key
     dedup = False
+    by_identity = False
     if cand_loop is not None:
         for stmt in cand_loop.body:
             if stmt is clones[0]:
                 break
             if isinstance(stmt, ast.If) and len(stmt.body) >= 1 and \
-                    isinstance(stmt.body[-1], ast.Continue):
+                    isinstance(effective(stmt.body)[-1], ast.Continue):
                 for c in calls_in(stmt.test):
                     if last_attr(c) == 'find_group' and [norm(a) for a in c.args] == [cand_var]:
                         dedup = True
+                # identity form: id(<candidate>) in <set of consumed groups>
+                t = stmt.test
+                if isinstance(t, ast.Compare) and isinstance(t.ops[0], ast.In) \
+                        and isinstance(t.left, ast.Call) and call_name(t.left) == 'id' \
+                        and [norm(a) for a in t.left.args] == [cand_var] \
+                        and isinstance(t.comparators[0], ast.Name):
+                    used_name = t.comparators[0].id
+                    marks = [c for c in calls_in(fn, nested=False) if last_attr(c) == 'add'
+                             and norm(c.func.value) == used_name and c.args
+                             and isinstance(c.args[0], ast.Call) and call_name(c.args[0]) == 'id'
+                             and norm(c.args[0].args[0]) == lookup_var]
+                    same_block = bool(marks) and all(
+                        any(m is x for x in ast.walk(accum._parent)) for m in marks)
+                    if same_block:
+                        dedup = True
+                        by_identity = True
+    ctx.ob(rule('R2'), 'candidates:dedupe-by-identity', by_identity or not union_ok,
+           'a candidate is skipped because this very object went into an earlier average, not '
+           'because the average container holds a group with the same key: two different groups '
+           'of one conformation can share the key (chains without identifier and equal numbering), '
+           'and the second would be dropped from the report', mc, cand_loop or fn)
     ctx.ob(rule('R2'), 'candidates:de-duplicated', dedup or not union_ok,
            'a candidate already averaged (found by the same find_group key in the average '
            'container) is skipped, so no group is reported twice', mc, cand_loop or fn)
